@@ -108,6 +108,9 @@ def _write_cog(
     intermediate_compression = _norm_compression_opts(intermediate_compression)
 
     if pix.ndim == 2:
+        if yaxis == 1:
+            # dims are (x, y): rows of the image are the second axis
+            pix = pix.transpose([1, 0])
         h, w = pix.shape
         nbands = 1
         band = 1  # type: Any
